@@ -22,7 +22,7 @@ func init() {
 			"(R-SPACE) lexer and formatter classify separators with the same predicate (unicode.IsSpace on the current rune), the lexer's delimiter set is the constant \"()[];,\" and the formatter's bracket pairs are drawn from it; (R-DIRFIRST) in parseConfig every write of an option executes only for a token of type comment inside a loop that leaves at the first non-comment token, and parseAstTree drops all comment tokens (keeps a token only under typ != comment, then truncates) before check and parsing, so no parser function ever sees one. " +
 			"NOT decided: that arbitrary re-layout yields the same token sequence, that the formatter preserves every token outside verbatim classes, idempotence of formatting.",
 		Run:       runC14,
-		Witnesses: c14Witnesses,
+		Witnesses: append(append([]Witness{}, wave10Witnesses14...), c14Witnesses...),
 	})
 }
 
@@ -108,6 +108,7 @@ func ruleFmtClass(w *World, r *Report) {
 	}
 	// lexer classes
 	lexer := map[int64][]int64{}
+	var lexCond []string
 	for _, an := range lex.AnonFuncs {
 		EachInstr(an, func(in ssa.Instruction) {
 			iff, ok := in.(*ssa.If)
@@ -144,6 +145,30 @@ func ruleFmtClass(w *World, r *Report) {
 				}
 				sort.Slice(terms, func(i, j int) bool { return terms[i] < terms[j] })
 				lexer[c] = terms
+				// the token ends AT its terminating rune, unconditionally: once `A[i] == T` holds the scanning loop is
+				// not re-entered (a doubled-quote escape, say, would let two adjacent literals fuse into one token while
+				// the formatter — and a reader — still see two)
+				for _, tb := range target.Blocks {
+					iff2, okIf := tb.Instrs[len(tb.Instrs)-1].(*ssa.If)
+					if !okIf {
+						continue
+					}
+					bo2, okB := iff2.Cond.(*ssa.BinOp)
+					if !okB || bo2.Op != token.EQL {
+						continue
+					}
+					if _, okc := constInt(bo2.Y); !okc {
+						continue
+					}
+					if addr, okl := isLoad(bo2.X); !okl {
+						continue
+					} else if _, oki := addr.(*ssa.IndexAddr); !oki {
+						continue
+					}
+					if reachable(tb.Succs[0], tb) {
+						lexCond = append(lexCond, fmt.Sprintf("class %q at %s", rune(c), w.InstrPos(iff2)))
+					}
+				}
 			}
 		})
 	}
@@ -330,6 +355,7 @@ func ruleFmtClass(w *World, r *Report) {
 		}
 	}
 	r.Check(whole, rule, w.Pos(fm.Pos()), w.Name(fm), "end of the main loop", "the result is returned only after every rune of the input was looked at", "the main loop over the input can be left before the end: the rest of the text is missing from the result")
+	r.Check(len(lexCond) == 0, rule, w.Pos(lex.Pos()), w.Name(lex), "the lexer's verbatim tokens end at their terminating rune", "matching the terminator leaves the scanning loop for good", fmt.Sprintf("after the terminating rune the lexer can go on scanning the same token (%v): where the token ends depends on what follows it, so adjacent tokens fuse when the whitespace between them is removed", lexCond))
 	r.Check(len(extraExits) == 0, rule, w.Pos(fm.Pos()), w.Name(fm), "exits of the copy-through loops", "left only on the terminating rune or at the end of the input", fmt.Sprintf("a copy-through loop can be left in the middle of the token (%v): the rest of a string or comment is then formatted as code", extraExits))
 	show := func(m map[int64][]int64) map[string]string {
 		out := map[string]string{}
